@@ -14,7 +14,18 @@ PATH_MAP = [
 ]
 
 
+FNITEM_MAP = [
+    # fn-item types name the function: {SmartString::<LazyCompact>::as_str} / {String::as_str} are the aliased type's
+    # inherent method, exactly as in a direct call (PATH_MAP)
+    (re.compile(r"\{smartstring::SmartString::<smartstring::LazyCompact>::(\w+)\}"), r"{SmallString::\1}"),
+    (re.compile(r"\{smartstring::SmartString::<Mode>::(\w+)\}"), r"{SmallString::\1}"),
+    (re.compile(r"\{(?:std|alloc)::string::String::(\w+)\}"), r"{SmallString::\1}"),
+]
+
+
 def map_ty(s):
+    for r, b in FNITEM_MAP:
+        s = r.sub(b, s)
     for a, b in TYPE_MAP:
         s = s.replace(a, b)
     return s
